@@ -149,7 +149,7 @@ class _V:
             elif k in ("self", "cls"):
                 out[k] = k
             else:
-                out[k] = run.label_of(v) or type(v).__name__
+                out[k] = run.label_of(v) or ("inst" if type(v).__module__.startswith("vfprog_") else type(v).__name__)
         return out
 
     def _hook(self, run, kind, ident, kw):
